@@ -21,7 +21,9 @@ import (
 type Adapter interface {
 	// New builds a fresh channel; sent receives the sequence number of every message the
 	// channel publishes through Send (first transmissions and retransmissions).
-	New(sent func(seqno uint64)) Chan
+	New(sent func(seqno uint64) error) Chan
+	// CanFailPublish: the channel's Send has a publish step that may fail.
+	CanFailPublish() bool
 }
 
 type Chan interface {
@@ -42,6 +44,9 @@ type Scenario struct {
 	Senders int        `json:"senders"` // concurrent Send callers (seqno leg)
 	NoR1    bool       `json:"no_r1"`   // receiver 1 (the cancellable one) absent
 	NoR2    bool       `json:"no_r2"`   // receiver 2 absent
+	// FailFirstPublish: the first publish attempt of the channel fails (transport error);
+	// the Send that hit it reports the error, later Sends must still get fresh numbers.
+	FailFirstPublish bool `json:"fail_first_publish,omitempty"`
 }
 
 type obs struct {
@@ -57,7 +62,15 @@ func body(a Adapter, sc Scenario, o *obs) func() {
 	return func() {
 		*o = obs{startedBefore: map[string]bool{}}
 		o.handled[0], o.handled[1] = map[string]int{}, map[string]int{}
-		ch := a.New(func(s uint64) { o.seqnos = append(o.seqnos, s) })
+		publishes := 0
+		ch := a.New(func(s uint64) error {
+			o.seqnos = append(o.seqnos, s)
+			publishes++
+			if sc.FailFirstPublish && publishes == 1 {
+				return fmt.Errorf("publish failed")
+			}
+			return nil
+		})
 		ctx1, cancel1 := vctx.WithCancel(context.Background())
 		ctx2, cancel2 := vctx.WithCancel(context.Background())
 		_ = cancel2
@@ -101,7 +114,7 @@ func body(a Adapter, sc Scenario, o *obs) func() {
 		}
 		for i := 0; i < sc.Senders; i++ {
 			vsched.GoDaemon("sender", func() {
-				if err := ch.Send(ctx2); err != nil {
+				if err := ch.Send(ctx2); err != nil && !sc.FailFirstPublish {
 					o.sendErr = err
 				}
 			})
@@ -180,6 +193,7 @@ func Scenarios(thorough bool) []Scenario {
 		// cancellation racing with a delivery
 		{Name: "cancel", Workers: [][]string{{"A1"}}, Cancel: true, NoR2: true},
 		{Name: "concurrent-sends", Senders: 2, NoR1: true, NoR2: true},
+		{Name: "sends-first-publish-fails", Senders: 2, NoR1: true, NoR2: true, FailFirstPublish: true},
 	}
 	if thorough {
 		scs = append(scs,
@@ -210,6 +224,9 @@ func Run(r *vrep.R, unit string, a Adapter, fatalf func(string, ...any)) {
 	maxBound := 2
 	shard, shards := r.Shard()
 	for i, sc := range Scenarios(r.Thorough()) {
+		if sc.FailFirstPublish && !a.CanFailPublish() {
+			continue
+		}
 		if i == 0 && shard == 0 {
 			x := vsched.Replay(nil, opts(0), body(a, sc, &o))
 			ox := fmt.Sprint(o.handled, o.seqnos)
